@@ -12,6 +12,9 @@ type Clock struct {
 }
 
 func (c *Clock) NowNano() int64 {
+	if v, ok := verifNow(c); ok {
+		return v
+	}
 	return time.Since(c.Start).Nanoseconds()
 }
 
